@@ -79,6 +79,14 @@ def outcome(kind, text, p=None):
     """('ast', ast) | ('syntax'|'sanity'|'type'|'value', exc) | ('other', exc)"""
     from hpl.errors import HplSanityError, HplSyntaxError
 
+    armed = core.arm_call_limit()
+    try:
+        return _outcome(kind, text, p, HplSanityError, HplSyntaxError)
+    finally:
+        core.disarm_call_limit(armed)
+
+
+def _outcome(kind, text, p, HplSanityError, HplSyntaxError):
     try:
         return ('ast', (p or parser(kind)).parse(text))
     except HplSyntaxError as e:
